@@ -19,7 +19,6 @@ import (
 	"math/rand"
 	"net/http"
 	"net/http/httptest"
-	"net/url"
 	"os"
 	"path/filepath"
 	"regexp"
@@ -1188,48 +1187,9 @@ type c18Known struct {
 // (9df854d, 457aa6b, 4986535, 72c92b8, 4008951); their witnesses stay in the corpus and a recurrence is a VIOLATION.
 // no open known-finding class: the crash classes found by this check were repaired in /repo
 // (9df854d, 457aa6b, 4986535, 72c92b8, 4008951, 0b2762d); their witnesses stay in the corpus and a recurrence is a VIOLATION.
-// ONE open known-finding class (known_findings.d/C18.json): C18-upstream-uri-unparsed.
-// Predicate on the INPUT (a failover entry or a prometheusQuery uri that url.Parse rejects) and on the crash site
-// (promapi.(*Prometheus).doRequest); any other crash of such a configuration is still a VIOLATION.
-var c18KnownClasses = []c18Known{
-	{id: "C18-upstream-uri-unparsed", match: func(sc c18Scenario, stderr string) bool {
-		return c18HasUnparsableUpstreamURI(sc.Config) && strings.Contains(stderr, "promapi.(*Prometheus).doRequest")
-	}},
-}
-
-var (
-	c18FailoverRe = regexp.MustCompile(`(?s)failover\s*=\s*\[(.*?)\]`)
-	c18PQRe       = regexp.MustCompile(`(?s)prometheusQuery\s*\{(.*?)\n  \}`)
-	c18UriRe      = regexp.MustCompile(`(?m)^\s*uri\s*=\s*("(?:[^"\\]|\\.)*")`)
-	c18StrRe      = regexp.MustCompile(`"(?:[^"\\]|\\.)*"`)
-)
-
-// c18HasUnparsableUpstreamURI: some `failover = [...]` entry, or the first `uri` of a prometheusQuery block (its own
-// uri comes before its template block), is a string url.Parse rejects.  Template actions are left as they are: a
-// rendered value can only differ inside {{ }}.
-func c18HasUnparsableUpstreamURI(cfg string) bool {
-	bad := func(lit string) bool {
-		v, err := strconv.Unquote(strings.ReplaceAll(strings.ReplaceAll(lit, "$${", "${"), "%%{", "%{"))
-		if err != nil {
-			return false
-		}
-		_, perr := url.Parse(v)
-		return perr != nil
-	}
-	for _, m := range c18FailoverRe.FindAllStringSubmatch(cfg, -1) {
-		for _, lit := range c18StrRe.FindAllString(m[1], -1) {
-			if bad(lit) {
-				return true
-			}
-		}
-	}
-	for _, m := range c18PQRe.FindAllStringSubmatch(cfg, -1) {
-		if u := c18UriRe.FindStringSubmatch(m[1]); u != nil && bad(u[1]) {
-			return true
-		}
-	}
-	return false
-}
+// no open known-finding class: every crash class found so far was repaired in /repo (9df854d, 457aa6b, 4986535, 72c92b8,
+// 4008951, 0b2762d, 6f3f221); the witnesses stay in the corpus and a recurrence is a VIOLATION.
+var c18KnownClasses = []c18Known{}
 
 func c18Configs(r *rand.Rand, rep *runReport, cwd string, n int, strata bool) {
 	srv := c18FakeProm()
@@ -1246,8 +1206,8 @@ func c18Configs(r *rand.Rand, rep *runReport, cwd string, n int, strata bool) {
 		{ID: "corpus-fixed-457aa6b-link-uri", Online: true, Config: "rule {\n  link \"http://.*\" {\n    uri = \"http://exa mple.com/%zz\"\n  }\n}\n", Rules: basicRules},
 		{ID: "corpus-fixed-4986535-quote-unterminated", Config: "rule {\n  match {\n    name = \"\\\\QFoo\"\n  }\n  label \"team\" {\n    required = true\n  }\n}\n", Rules: basicRules},
 		{ID: "corpus-fixed-0b2762d-range-query-max-empty", Config: "rule {\n  range_query {\n    max = \"\"\n  }\n}\n", Rules: basicRules},
-		{ID: "corpus-open-upstream-uri-unparsed-failover", Online: true, Config: "prometheus \"prom\" {\n  uri      = \"http://127.0.0.1:1\"\n  failover = [\"http://exa mple.com/%zz\"]\n}\n", Rules: basicRules},
-		{ID: "corpus-open-upstream-uri-unparsed-prometheus-query", Online: true, Config: "discovery {\n  prometheusQuery {\n    uri   = \"http://exa mple.com/%zz\"\n    query = \"up\"\n    template {\n      name = \"d\"\n      uri  = \"http://127.0.0.1:1\"\n    }\n  }\n}\n", Rules: basicRules},
+		{ID: "corpus-fixed-6f3f221-upstream-uri-unparsed-failover", Online: true, Config: "prometheus \"prom\" {\n  uri      = \"http://127.0.0.1:1\"\n  failover = [\"http://exa mple.com/%zz\"]\n}\n", Rules: basicRules},
+		{ID: "corpus-fixed-6f3f221-upstream-uri-unparsed-prometheus-query", Online: true, Config: "discovery {\n  prometheusQuery {\n    uri   = \"http://exa mple.com/%zz\"\n    query = \"up\"\n    template {\n      name = \"d\"\n      uri  = \"http://127.0.0.1:1\"\n    }\n  }\n}\n", Rules: basicRules},
 		{ID: "corpus-fixed-4008951-promql-label-name", Config: "parser {\n}\n", Rules: "groups:\n- name: g\n  rules:\n  - record: foo\n    expr: up{\"a(b\"=~\"x.*\"}\n"},
 	}
 	if !strata {
